@@ -61,7 +61,7 @@ def run(tier, seed):
     chk = vlib.Check("C20", tier, seed)
     os.makedirs(os.path.join(vlib.BUILD, "stats"), exist_ok=True)
     n = 100 if tier == "quick" else 2000
-    cases = sim_common.make_cases("C20", tier, seed, n, variants=(0, 0, 1, 0), fp_levels=(2, 3, 1), sizes=(0, 0, 1), stats=True,
+    cases = sim_common.make_cases("C20", tier, seed, n, variants=(0, 0, 1, 0), fp_levels=(2, 10, 3, 1), sizes=(0, 0, 1), stats=True,
                                   threads=[1, 2, 3, 4, 8, 2, 12, 5], gvts=[0, 20, 1000, 100000, 300, 5000, 200])
     recs = sim_common.run_sim_cases(chk, cases, timeout=300, retries=0)
     shipped = os.path.join(vlib.REPO, "src", "log", "parse", "rootsim_stats.py")
